@@ -511,6 +511,11 @@ class Simulator:
         if len(self._errors) > 0:
             return self
 
+        # The integrator searches from its initial state and does not advance.
+        # Restart it from the last state before and from the steady state after
+        if self.variables is not None:
+            self.update_variables({})
+
         self._handle_simulation_results(
             self.integrator.integrate_to_steady_state(
                 tolerance=tolerance,
@@ -518,6 +523,9 @@ class Simulator:
             ),
             skipfirst=False,
         )
+
+        if self.variables is not None and len(self._errors) == 0:
+            self.update_variables({})
         return self
 
     def get_result(self) -> Result[Simulation]:
